@@ -57,7 +57,8 @@ func (c *Conversation) fragment(data encodedMessage, fraglen uint16) []ValidMess
 		return []ValidMessage{ValidMessage(data)}
 	}
 
-	numFragments := (l / realFraglen) + 1
+	// every piece must be non-empty (OTR spec, "Fragmentation"): round up instead of adding one
+	numFragments := (l + realFraglen - 1) / realFraglen
 	if numFragments > maxFragments {
 		return []ValidMessage{ValidMessage(data)}
 	}
